@@ -98,12 +98,22 @@ func harnessC14Step(kind int) {
 	terminated := false
 	needReply := true
 	switch verifChoose("event", 7) {
-	case 0: // subscribe
+	case 0: // subscribe - the request may have been queued before the hub paused or deleted the topic
 		verifAssume(!attached)
+		switch verifChoose("topicStatus", 3) {
+		case 1:
+			t.status |= topicStatusPaused
+		case 2:
+			t.status |= topicStatusMarkedDeleted
+		}
 		s.inflightReqs.Add(1)
 		msg := base
 		msg.Sub = &MsgClientSub{Id: "r1", Topic: orig}
 		t.registerSession(&msg)
+		if t.status&(topicStatusPaused|topicStatusMarkedDeleted) != 0 {
+			_, att := t.sessions[s]
+			verifAssert(!att, "no-attachment-to-an-inactive-topic")
+		}
 	case 1: // leave
 		verifAssume(attached)
 		s.inflightReqs.Add(1)
